@@ -1178,6 +1178,11 @@ def c10(run):
     for i in range(n):
         prog = dict_program(rng)
         cases.append((prog, progs.render(rng, prog)))
+    # related keys, deterministically: a key and the same key continued by a double quote (or another character) and more
+    for tail_ in ['"', '" York', '"z', '""', ' York', '!', '#x']:
+        for base_ in ('New', 'k'):
+            cases.append(([], 'ka says %s\nkb says %s%s\nput "v1" into dd at ka\nput "v2" into dd at kb\nput "v3" into dd at "zz"\njoin dd into ee with ","\nsay ee\nsay dd\n'
+                          % (base_, base_, tail_)))
     # dictionaries and arrays at sizes sweeping powers of two +-1 and 1000 (printing, comparing, an error whose message shows them)
     for k, nn, src in scale_runs(run.tier == 'quick'):
         if k.startswith(('dictionary', 'array-elements')) and nn >= 8:
